@@ -1,6 +1,7 @@
 package isobmff
 
 import (
+	"github.com/pkg/errors"
 	"github.com/rs/zerolog"
 )
 
@@ -64,7 +65,16 @@ func (r *Reader) readIloc(b *box) (err error) {
 		ilb.items = make([]ilocEntry, 0, ilb.count)
 	}
 
+	// size of an entry up to and including its extent count, and of one extent
+	entrySize := 2 + 2 + int(ilb.baseOffsetSize) + 2
+	if b.flags.version() > 0 {
+		entrySize += 2
+	}
+	extentSize := int(ilb.offsetSize) + int(ilb.lengthSize)
 	for i := 0; i < len(buf); {
+		if i+entrySize > len(buf) {
+			return errors.Wrap(ErrBufLength, "readIloc entry")
+		}
 		var ent ilocEntry
 		ent.id = itemID(bmffEndian.Uint16(buf[i : i+2]))
 		i += 2
@@ -88,6 +98,9 @@ func (r *Reader) readIloc(b *box) (err error) {
 		for j := 0; j < int(ent.count); j++ {
 			var ol offsetLength
 			if j == 0 {
+				if i+extentSize > len(buf) {
+					return errors.Wrap(ErrBufLength, "readIloc extent")
+				}
 				ol.offset = uintN(ilb.offsetSize, buf[i:i+int(ilb.offsetSize)])
 				i += int(ilb.offsetSize)
 				ol.length = uintN(ilb.lengthSize, buf[i:i+int(ilb.lengthSize)])
@@ -145,6 +158,7 @@ func uintN(size uint8, buf []byte) uint64 {
 	case 8:
 		return bmffEndian.Uint64(buf[:8])
 	default:
-		panic("error here")
+		// 0: the field is absent. Other sizes are not defined by ISO 14496-12
+		return 0
 	}
 }
